@@ -117,6 +117,10 @@ pub fn gen_mode(o: &Opts, mode: u32, sink: &mut dyn FnMut(Vec<i64>, String)) {
         match pgn {
             65242 => vec![1, 3, 2, 1, 42, 255, 255, 255],
             65288 => vec![*rng.pick(&[0x14i64, 0x16, 0xfa, 0xfb, 0x15, 0xff]), 255, rng.below(2) as i64, 255, 1, 2, 3, 4],
+            // well-formed vecraft configuration messages ('Z','C' header): motion config (lock / reset
+            // flags) and identification config - what the daemon itself, or anybody else, may send to a unit
+            45824 if rng.chance(3, 4) => vec![90, 67, 255, *rng.pick(&[0i64, 1, 255]), *rng.pick(&[0i64, 1, 255]), 255, 255, 255],
+            45312 if rng.chance(3, 4) => vec![90, 67, *rng.pick(&[0i64, 1, 255]), *rng.pick(&[0i64, 1, 255]), 255, 255, 255, 255],
             _ => (0..8).map(|_| match rng.below(5) { 0 => 0, 1 => 255, _ => rng.byte() as i64 }).collect(),
         }
     };
